@@ -33,7 +33,11 @@ SdBoxUnit(br, bc) == { <<r, c>> : r \in (br * SdB + 1)..(br * SdB + SdB), c \in 
 SdUnits == { SdRowUnit(r) : r \in SdIdx } \cup { SdColUnit(c) : c \in SdIdx }
              \cup { SdBoxUnit(br, bc) : br \in 0..(SdB - 1), bc \in 0..(SdB - 1) }
 (* the cells that see the cell rc (its row, its column, its box; rc itself included) *)
-SdSees(rc) == SdRowUnit(rc[1]) \cup SdColUnit(rc[2]) \cup SdBoxUnit((rc[1] - 1) \div SdB, (rc[2] - 1) \div SdB)
+SdSeesDef(rc) == SdRowUnit(rc[1]) \cup SdColUnit(rc[2]) \cup SdBoxUnit((rc[1] - 1) \div SdB, (rc[2] - 1) \div SdB)
+(* the same two notions tabulated once (they depend on the box size only): evaluation aid for TLC *)
+SdUnitsTab == TLCEval(SdUnits)
+SdSeesTab == TLCEval([r \in SdIdx |-> [c \in SdIdx |-> SdSeesDef(<<r, c>>)]])
+SdSees(rc) == SdSeesTab[rc[1]][rc[2]]
 
 (* ---------- boards ---------- *)
 SdShapeOK(b) == Len(b) = SdN /\ \A r \in SdIdx : Len(b[r]) = SdN /\ \A c \in SdIdx : b[r][c] \in SdDigits \cup {SdEmpty}
@@ -42,9 +46,9 @@ SdEmptyCount(b) == Cardinality(SdEmptyCells(b))
 SdFull(b) == SdEmptyCells(b) = {}
 (* no digit twice in a unit *)
 SdUnitNoRepeat(b, u) == \A p \in u : At(b, p) # SdEmpty => \A q \in u : (q # p => At(b, q) # At(b, p))
-NoRepeat(b) == \A u \in SdUnits : SdUnitNoRepeat(b, u)
+NoRepeat(b) == \A u \in SdUnitsTab : SdUnitNoRepeat(b, u)
 (* every unit shows every digit *)
-Solved(b) == \A u \in SdUnits : { At(b, q) : q \in u } = SdDigits
+Solved(b) == \A u \in SdUnitsTab : { At(b, q) : q \in u } = SdDigits
 
 (* ---------- rules ---------- *)
 SdCellOf(a) == <<a[1] + 1, a[2] + 1>>
